@@ -2,7 +2,7 @@
 # usage: evalmut.sh <patch.diff> <demo.py|-> <name> <check ids...>
 # Applies the patch in a scratch worktree of /repo HEAD, runs the repository suite, the demo, and the given quick checks
 # against the patched tree (TLMC_SRC), writing evidence/replays under a scratch directory. Removes the worktree afterwards.
-patch=$1; demo=$2; name=$3; shift 3
+patch=$(realpath $1); demo=$2; [ "$demo" != "-" ] && demo=$(realpath $demo); name=$3; shift 3
 wt=/tmp/ev/$name; out=/tmp/ev/out-$name
 rm -rf $out; mkdir -p /tmp/ev $out
 git -C /repo worktree remove --force $wt 2>/dev/null
